@@ -199,4 +199,60 @@ theorem setIntersects_setOf (as bs : List Term) (ty : TermType)
   rw [setIsEmpty_isSet hs, ← nonempty_eq_any hm]
   rfl
 
+/-! the driver's decidable fragment test `inFrag3` is sound for `SFrag3` -/
+mutual
+theorem inFrag3_sound : ∀ (e : Expr), inFrag3 e = true → SFrag3 e
+  | .lit (.bool b), _ => .litBool b
+  | .lit (.int i), h => .litInt i (by simpa [inFrag3] using h)
+  | .lit (.string s), _ => .litString s
+  | .lit (.entityUID u), _ => .litEntity u
+  | .var .principal, _ => .principal
+  | .var .action, _ => .action
+  | .var .resource, _ => .resource
+  | .var .context, _ => .context
+  | .ite c t e, h => by
+    simp only [inFrag3, Bool.and_eq_true] at h
+    exact .ite (inFrag3_sound c h.1.1) (inFrag3_sound t h.1.2) (inFrag3_sound e h.2)
+  | .and a b, h => by
+    simp only [inFrag3, Bool.and_eq_true] at h
+    exact .and (inFrag3_sound a h.1) (inFrag3_sound b h.2)
+  | .or a b, h => by
+    simp only [inFrag3, Bool.and_eq_true] at h
+    exact .or (inFrag3_sound a h.1) (inFrag3_sound b h.2)
+  | .unaryApp .not a, h => .not (inFrag3_sound a (by simpa [inFrag3] using h))
+  | .unaryApp .neg a, h => .neg (inFrag3_sound a (by simpa [inFrag3] using h))
+  | .unaryApp .isEmpty a, h => .isEmpty (inFrag3_sound a (by simpa [inFrag3] using h))
+  | .binaryApp op a b, h => by
+    simp only [inFrag3, Bool.and_eq_true] at h
+    have ha := inFrag3_sound a h.1.2
+    have hb := inFrag3_sound b h.2
+    cases op <;> simp at h
+    · exact .eq ha hb
+    · exact .less ha hb
+    · exact .lessEq ha hb
+    · exact .add ha hb
+    · exact .sub ha hb
+    · exact .mul ha hb
+    · exact .contains ha hb
+    · exact .containsAll ha hb
+    · exact .containsAny ha hb
+  | .getAttr a attr, h => .getAttr attr (inFrag3_sound a (by simpa [inFrag3] using h))
+  | .hasAttr a attr, h => .hasAttr attr (inFrag3_sound a (by simpa [inFrag3] using h))
+  | .slot _, h => by simp [inFrag3] at h
+  | .unknown _ _, h => by simp [inFrag3] at h
+  | .call _ _, h => by simp [inFrag3] at h
+  | .like a p, h => .like p (inFrag3_sound a (by simpa [inFrag3] using h))
+  | .is a ety, h => .is ety (inFrag3_sound a (by simpa [inFrag3] using h))
+  | .set xs, h => .set (inFrag3List_sound xs (by simpa [inFrag3] using h))
+  | .record _, h => by simp [inFrag3] at h
+theorem inFrag3List_sound : ∀ (xs : List Expr), inFrag3List xs = true → ∀ x, x ∈ xs → SFrag3 x
+  | [], _ => by intro x hx; cases hx
+  | y :: ys, h => by
+    simp only [inFrag3List, Bool.and_eq_true] at h
+    intro x hx
+    rcases List.mem_cons.mp hx with hxy | hx
+    · rw [hxy]; exact inFrag3_sound y h.1
+    · exact inFrag3List_sound ys h.2 x hx
+end
+
 end Cedar.SymC
